@@ -15,8 +15,8 @@ from vlib.core import MachineryError
 PKG = "c18"
 
 FAMILIES = {
-    "quick": ["wf", "evall", "ev1", "ev3", "ev2", "raw", "rawevent", "join"],
-    "thorough": ["wf", "evall", "env", "ev1a", "ev1b", "ev1c", "ev1xa", "ev1xb", "ev1xc", "ev3", "ev2", "raw", "rawevent", "join"],
+    "quick": ["wf", "sig", "evall", "ev1", "ev3", "ev2", "raw", "rawevent", "join"],
+    "thorough": ["wf", "sig", "evall", "env", "ev1a", "ev1b", "ev1c", "ev1xa", "ev1xb", "ev1xc", "ev3", "ev2", "raw", "rawevent", "join"],
 }
 PROBES = {"quick": 6000, "thorough": 150000}
 
